@@ -127,6 +127,9 @@ def run(F, R):
     e13_counter_accounting(F, R, M)
     e14_release_form(F, R, M)
     release_rule(F, R, 'E15')
+    # E18: ring slots of completions are computed modulo the size the device was told: queue_set receives SIZE (C06.L3)
+    from .C06 import registration_rule
+    registration_rule(F, R, 'E18')
     e16_chain_link(F, R, M)
     e17_helper_waits(F, R, M, roles)
 
